@@ -5,7 +5,7 @@
 
    `f` is the value the callback expression yields for the pair (an oracle: d(i,j)^2, exp(-d^2/w),
    callback(i,j)); it is evaluated once per pair by the iteration that owns the pair.  NO proofs here. *)
-From Coq Require Import ZArith List String.
+From Coq Require Import ZArith List String Bool.
 Import ListNotations.
 From TK Require Import Par_Model Par_Region_Model.
 
@@ -75,3 +75,28 @@ Section HlleBody.
   Definition hlle_body (step col : hexpr) (d : nat) : prog key V C :=
     wr_cols (hlle_written_all step col d) (rd_cols (hlle_read_all d) (Crit c0 Ret)).
 End HlleBody.
+
+(* ------------------------------------------------------------------ private-variable events as a program *)
+(* the abstract program of the events on key x: `take` says which conditional events execute *)
+Section EvProg.
+  Variable K V C : Type.
+  Variable x : K.
+  Variable v : V.              (* some value written *)
+  Variable f : V -> V.         (* what a modification does *)
+  Variable canon : V.          (* the content after clear() *)
+
+  Fixpoint prog_of (evs : list pevent) (take : list bool) : prog K V C :=
+    match evs with
+    | [] => Ret
+    | e :: evs' =>
+        let b := match take with b :: _ => b | [] => true end in
+        let take' := if e_cond e then tl take else take in
+        if e_cond e && negb b then prog_of evs' take'
+        else match e_kind e with
+             | EW => Wr (Pr x) v (prog_of evs' take')
+             | ER => Rd (Pr x) (fun _ => prog_of evs' take')
+             | ERMW | EM => Rd (Pr x) (fun u => Wr (Pr x) (f u) (prog_of evs' take'))
+             | ECLR => Wr (Pr x) canon (prog_of evs' take')
+             end
+    end.
+End EvProg.
